@@ -180,7 +180,7 @@ def expressions(tier, seed):
     for s in range(1, exhaustive_to + 1):
         out += all_asts(s, BASE_ATOMS, memo)
     rng = random.Random(1000003 * seed + (1 if tier == "quick" else 2))
-    n_sample = 150 if tier == "quick" else 3000
+    n_sample = 150 if tier == "quick" else 2000
     sizes = (4, 5, 6) if tier == "quick" else (5, 6, 7)
     seen = {regexsem.render(a) for a in out}
     tries = 0
@@ -326,6 +326,8 @@ class _RegexHarness(Harness):
     max_paths = 60000
     max_decisions = 400
     choose_limit = 4096
+    timeout_ms = 120000            # all queries are tiny; generous limits only matter on an overloaded machine
+    prove_timeout_ms = 300000
 
     def setup(self, asts):
         self.asts = asts
@@ -592,7 +594,7 @@ def chunk_fullmatch(tier, seed, lo, hi, n):
               run_harness(FullMatchHarness(a, n), known, want_trace=not parts)]
         parts += rs
         bad += any(r["violations"] for r in rs)
-        if bad >= 3:
+        if bad >= 2:
             break                                   # enough counterexamples from this chunk
     return _merge(name, parts, t0, errs)
 
@@ -609,13 +611,17 @@ def chunk_scan(tier, seed, lo, hi, n, vectors):
     parts = []
     bad = 0
     for v in items:
-        rs = []
-        if vectors:     # (tables of single expressions are covered by the full-match chunk of the same expression)
-            rs.append(run_harness(TransitionHarness(v), known, want_trace=not parts))
-        rs.append(run_harness(ScanHarness(v, n - 1 if len(v) >= 4 else n), known, want_trace=not parts))
-        parts += rs
-        bad += any(r["violations"] for r in rs)
-        if bad >= 3:
+        # the scan harness runs the real scan loop with pick_transition summarised per target state;
+        # the summary's premise (real pick_transition == table semantics on this table) is proven first
+        ra = run_harness(TransitionHarness(v), known, want_trace=not parts)
+        parts.append(ra)
+        if ra["violations"] or ra["errors"] or ra["inconclusive"]:
+            bad += 1
+        else:
+            rs = run_harness(ScanHarness(v, n - 1 if len(v) >= 4 else n), known, want_trace=len(parts) == 1)
+            parts.append(rs)
+            bad += bool(rs["violations"])
+        if bad >= 2:
             break
     return _merge(name, parts, t0, errs)
 
